@@ -196,11 +196,13 @@ Definition sstep (sw : sworld) (o : op) : sworld * option obs :=
       end
   | ODefMethod c => (mkSW (s_tbl sw) (s_insts sw) (if memb c (s_meths sw) then s_meths sw else c :: s_meths sw), Some ODone)
   | ODispatch i =>
+      (* the :before methods of the classes of the precedence list, most specific first (the generic also has a
+         primary on t that records nothing, so the call always returns) *)
       match nth_error (s_insts sw) i with
       | None => (sw, None)
       | Some si =>
           (sw, match s_user_cpl sw si with
-               | Some P => Some (match filter (fun h => memb h (s_meths sw)) (P ++ [SO; TT]) with [] => OErr | l => ONames l end)
+               | Some P => Some (ONames (filter (fun h => memb h (s_meths sw)) (P ++ [SO; TT])))
                | None => None
                end)
       end
